@@ -8,6 +8,8 @@ CONSTANTS
   KNum = 5
   KDen = 4
   Normalise = FALSE
+  Fold = FALSE
+  FoldWeight = 2
   Export = FALSE
 INVARIANT ErrBound
 PROPERTY BoundHalves
